@@ -390,15 +390,19 @@ def object_unique_names(obj, validation_id, children, attr=lambda x: x.name,
     :param attr: a function that returns the attribute that needs to be unique.
     :param msg: error message that will be registered with a ValidationError.
     """
-    names = set(map(attr, children(obj)))
-    if len(names) == len(children(obj)):
-        return
+    try:
+        if len(set(map(attr, children(obj)))) == len(children(obj)):
+            return
+    except TypeError:
+        # Content read from a file need not be hashable (e.g. a type given
+        # as a list); it is compared one by one below.
+        pass
 
-    names = set()
+    names = []
     for i in children(obj):
         if attr(i) in names:
             yield ValidationError(i, msg, LABEL_ERROR, validation_id)
-        names.add(attr(i))
+        names.append(attr(i))
 
 
 def section_unique_name_type(obj):
@@ -482,7 +486,11 @@ def property_dependency_check(prop):
     if dep is None:
         return
 
+    # A dependency names a Property; a number read from a file would be taken
+    # for a position in the list of Properties.
     try:
+        if not isinstance(dep, str):
+            raise KeyError(dep)
         dep_obj = prop.parent.properties[dep]
     except KeyError:
         msg = "Property refers to a non-existent dependency object"
